@@ -41,7 +41,7 @@ FAULT_KINDS = ["stale_copy_signed", "duplicate_pass", "wrong_key_pass", "db_stat
 PROBES = ["kind:p2pk", "kind:p2pkh", "kind:multisig", "kind:p2sh-multisig", "kind:p2wpkh", "kind:p2wsh-multisig",
           "kind:p2sh-p2wpkh", "kind:p2sh-p2wsh-multisig", "n>=16", "m>=10", "uncompressed_key", "hash_type_non_all",
           "anyonecanpay", "sighash_single_no_output", "partial_then_complete", "order_permutation_checked",
-          "supply_dict", "supply_wifs", "supply_keychain", "supply_keychain_hd", "backend_pure_python", "coin_bch", "coin_btg", "coin_ltc", "coin_other", "coin_grs_classes_direct",
+          "supply_dict", "supply_wifs", "supply_keychain", "supply_keychain_hd", "keychain_reused_across_passes", "backend_pure_python", "coin_bch", "coin_btg", "coin_ltc", "coin_other", "coin_grs_classes_direct",
           "wire_hex", "wire_bin", "wire_unspents", "txid_stable_after_witness_sign", "digest_at_seam_checked",
           "sighash_direct_256", "codeseparator_script", "noncommitted_change_still_valid", "committed_change_invalidates",
           "revalidate_fresh_equal", "default_flags_verdict_checked", "inputs>=253", "spendable_form_text", "spendable_form_dict", "spendable_form_bin", "wire_big_inputs", "wire_big_outputs",
@@ -178,6 +178,11 @@ def gen_plan(rng, tier, index, config=None):
                 st["db_fault"] = r.between(1, 6)
             if st["supply"].startswith("keychain") and r.chance(0.1):
                 st["clear_secrets"] = True
+            if st["supply"].startswith("keychain") and r.chance(0.6):
+                st["reuse_keychain"] = True
+                st.pop("db_fault", None)
+                if st["supply"] == "keychain_hd" and r.chance(0.4):
+                    st["withhold_root"] = True
             steps.append(st)
         elif op == "send":
             steps.append({"op": "send", "copy": cp, "dst": "c%d" % ncopies,
@@ -458,7 +463,15 @@ def _write_obj(W, cp):
     for to, o in zip(tx.txs_out, m["outs"]):
         to.coin_value = o["value"]
         to.script = o["script"]
-    tx.unspents = [None if u is None else Tx.TxOut(u["value"], u["script"]) for u in cp.u]
+    # the recorded spent outputs are edited in place where the objects exist (a mutate / re-validate history on the
+    # same objects), replaced only when an entry appears, disappears or the list changes length
+    if len(tx.unspents) == len(cp.u) and all((x is None) == (u is None) for x, u in zip(tx.unspents, cp.u)):
+        for x, u in zip(tx.unspents, cp.u):
+            if u is not None:
+                x.coin_value = u["value"]
+                x.script = u["script"]
+    else:
+        tx.unspents = [None if u is None else Tx.TxOut(u["value"], u["script"]) for u in cp.u]
 
 
 def _verdicts(W, cp):
@@ -630,8 +643,15 @@ def _do_sign(ctx, W, tx, st, secrets):
                 wifs.append(W.net.keys.private(d, is_compressed=comp).wif())
             W.net.tx_utils.sign_tx(tx, wifs=wifs, p2sh_lookup=build_p2sh_lookup(W.scripts), **kwargs)
         else:
-            conn = SimConnection()
-            kc = W.net.keychain(conn)
+            reuse = bool(st.get("reuse_keychain"))
+            if reuse and getattr(W, "kc", None) is not None:
+                conn, kc = W.kc
+                ctx.probe("keychain_reused_across_passes")
+            else:
+                conn = SimConnection()
+                kc = W.net.keychain(conn)
+                if reuse:
+                    W.kc = (conn, kc)
             if supply == "keychain_hd" and W.hd:
                 # a keychain of hierarchical keys: the database holds key paths, the root is the only secret
                 ctx.probe("supply_keychain_hd")
@@ -640,7 +660,8 @@ def _do_sign(ctx, W, tx, st, secrets):
                 paths = [k["path"] for k in W.keys if k.get("path") and k["d"] in wanted]
                 kc.add_key_paths(root, paths)
                 kc.commit()
-                kc.add_secret(root)
+                if not st.get("withhold_root"):
+                    kc.add_secret(root)
                 loose = [d for d in secrets if not any(k["d"] == d and k.get("path") for k in W.keys)]
                 kc.add_secrets([W.net.keys.private(d) for d in loose])
             else:
@@ -669,6 +690,16 @@ def _op_sign(ctx, W, st):
     cp = W.copies.get(st["copy"])
     if cp is None:
         return
+    if st.get("withhold_root") and str(st.get("supply")) == "keychain_hd" and W.hd:
+        # the cosigner registers the key paths but has not unlocked its root yet: no hierarchical key is available
+        st = dict(st, keys=[k for k in st["keys"] if not (0 <= k < len(W.keys) and W.keys[k].get("path"))])
+    if st.get("reuse_keychain") and str(st.get("supply", "")).startswith("keychain"):
+        # a long-lived keychain accumulates the secrets of every pass that used it
+        prev = getattr(W, "kc_keys", set())
+        if st.get("clear_secrets"):
+            prev = set()
+        W.kc_keys = prev | set(k for k in st["keys"] if k >= 0)
+        st = dict(st, keys=sorted(W.kc_keys) + [k for k in st["keys"] if k < 0])
     secrets = _key_material(W, st["keys"])
     if any(k < 0 for k in st["keys"]):
         ctx.fault("wrong_key_pass")
